@@ -25,13 +25,13 @@ def raw_behaviour(v, with_sched=True, atomic_only=False):
             if x[KIND] == 'run_end':
                 val = x[DATA] if isinstance(x[DATA], bool) else repr(x[DATA])
             elif x[KIND] == 'run_raise':
-                val = type(x[DATA]).__name__
+                val = repr(x[DATA])
         rows.append((name, None if b is None else b[T],
                      None if x is None else x[KIND],
                      None if x is None else x[T], val))
     rows.append(('<run>', v.ex.outcome[0],
                  v.ex.outcome[1] if isinstance(v.ex.outcome[1], bool)
-                 else type(v.ex.outcome[1]).__name__))
+                 else repr(v.ex.outcome[1])))
     return tuple(rows)
 
 
